@@ -104,7 +104,7 @@ def public_cases(draw):
         # who sends (0 = agent A, 1 = agent B), length, content seed
         sends.append([draw(st.sampled_from([0, 0, 1])), draw(st.sampled_from([1, 10, 40, 59, 60, 61, 120, 500, 2000])), draw(st.integers(0, 99))])
     return {'kind': 'public', 'mtu': mtu, 'sends': sends, 'arrival': draw(st.lists(st.integers(0, 30), max_size=20)),
-            'pump_between': draw(st.booleans()),
+            'pump_between': draw(st.booleans()), 'pop_file_bad': draw(st.sampled_from([False, False, True])),
             # an agent may call listen() only after its first own send (the sending socket exists by then)
             'listen_late': draw(st.sampled_from([[], [], [0], [1], [0, 1]]))}
 
@@ -439,6 +439,11 @@ def run_public(case, out):
         queue = tw.dbuscall(ctx, agent, 'recv_bundle_get_queue')
         got = []
         for bid in list(queue) if not hasattr(queue, 'exc') else []:
+            if case.get('pop_file_bad'):
+                # a pop into a file that cannot be created fails, and must leave the bundle where it is
+                res = tw.dbuscall(ctx, agent, 'recv_bundle_pop_file', str(bid), '/nonexistent-verif-directory/bundle.bin')
+                if not hasattr(res, 'exc'):
+                    out.fail('public:pop-to-unwritable-file-succeeds', 'recv_bundle_pop_file into a missing directory did not fail')
             res = tw.dbuscall(ctx, agent, 'recv_bundle_pop_data', str(bid))
             got.append(None if hasattr(res, 'exc') else bytes(res))
         want = expected[idx]
